@@ -168,6 +168,22 @@ func (w *world) mutationList(base cert, target, other *env.Proposal, forLast boo
 			c.Block, c.blockIs = bz, "hdr(b)+txs(b')"
 		})
 		add("block:nil", "block-nil", func(c *cert) { c.Block, c.blockIs = nil, "nil" })
+		// non-canonical block bytes: the header field occurs twice. A raw-bytes reader sees the first
+		// occurrence, a protobuf decoder merges them (the later one wins field by field)
+		add("block:dup-header(b,b2)+txs(b2)", "block-duplicate-header", func(c *cert) {
+			c.Block, c.blockIs = append(firstField(target.BlockBytes), other.BlockBytes...), "hdr(b)++block(b2)"
+		})
+		add("block:dup-header(b2,b)+txs(b)", "block-duplicate-header", func(c *cert) {
+			c.Block, c.blockIs = append(firstField(other.BlockBytes), target.BlockBytes...), "hdr(b2)++block(b)"
+		})
+		// the same with the second header reduced to the fields in which b2 differs from b: embedded
+		// messages both headers share (the last certificate) are then not merged twice
+		add("block:hdr(b)++hdr-delta(b2)+txs(b2)", "block-duplicate-header", func(c *cert) {
+			c.Block, c.blockIs = dupHeaderDelta(target.BlockBytes, other.BlockBytes), "hdr(b)++delta(b2)+txs(b2)"
+		})
+		add("block:b++hdr(b2)", "block-duplicate-header", func(c *cert) {
+			c.Block, c.blockIs = append(bytes.Clone(target.BlockBytes), firstField(other.BlockBytes)...), "block(b)++hdr(b2)"
+		})
 	} else {
 		add("block:attached", "block-attached", func(c *cert) { c.Block, c.blockIs = bytes.Clone(target.BlockBytes), "b" })
 	}
@@ -244,6 +260,133 @@ func (w *world) explicitComposites(ms []mutation) [][2]int {
 				out = append(out, [2]int{idx[tag], i})
 			}
 		}
+	}
+	return out
+}
+
+// firstField returns the bytes of the first top-level protobuf field (tag, length, payload) of a
+// length-delimited message start, i.e. the encoded block header of marshalled block bytes.
+func firstField(bz []byte) []byte {
+	if len(bz) < 2 || bz[0]&7 != 2 {
+		return nil
+	}
+	l, n := uint64(0), 1
+	for s := uint(0); n < len(bz); s += 7 {
+		b := bz[n]
+		n++
+		l |= uint64(b&0x7f) << s
+		if b < 0x80 {
+			break
+		}
+	}
+	if n+int(l) > len(bz) {
+		return nil
+	}
+	return bytes.Clone(bz[:n+int(l)])
+}
+
+// protoFields cuts a protobuf message into its top-level fields (number -> raw bytes of each occurrence, in order).
+func protoFields(bz []byte) (nums []uint64, raws [][]byte) {
+	uv := func(b []byte) (uint64, int) {
+		var v uint64
+		n := 0
+		for s := uint(0); n < len(b); s += 7 {
+			c := b[n]
+			n++
+			v |= uint64(c&0x7f) << s
+			if c < 0x80 {
+				return v, n
+			}
+		}
+		return 0, -1
+	}
+	for i := 0; i < len(bz); {
+		start := i
+		tag, n := uv(bz[i:])
+		if n < 0 {
+			return nil, nil
+		}
+		i += n
+		switch tag & 7 {
+		case 0:
+			_, n = uv(bz[i:])
+			if n < 0 {
+				return nil, nil
+			}
+			i += n
+		case 1:
+			i += 8
+		case 2:
+			l, n := uv(bz[i:])
+			if n < 0 {
+				return nil, nil
+			}
+			i += n + int(l)
+		case 5:
+			i += 4
+		default:
+			return nil, nil
+		}
+		if i > len(bz) {
+			return nil, nil
+		}
+		nums = append(nums, tag>>3)
+		raws = append(raws, bz[start:i])
+	}
+	return
+}
+
+func lenDelim(num uint64, payload []byte) []byte {
+	out := []byte{byte(num<<3 | 2)}
+	l := uint64(len(payload))
+	for l >= 0x80 {
+		out = append(out, byte(l)|0x80)
+		l >>= 7
+	}
+	out = append(out, byte(l))
+	return append(out, payload...)
+}
+
+// dupHeaderDelta: header(x) ++ header(fields of y's header that differ from x's) ++ the rest of y.
+func dupHeaderDelta(x, y []byte) []byte {
+	hx := firstField(x)
+	hy := firstField(y)
+	if hx == nil || hy == nil {
+		return nil
+	}
+	_, rx := protoFields(x)
+	_, ry := protoFields(y)
+	if len(rx) == 0 || len(ry) == 0 {
+		return nil
+	}
+	// payloads of the two header fields
+	inner := func(f []byte) []byte {
+		_, raws := protoFields(f)
+		if len(raws) != 1 {
+			return nil
+		}
+		// strip tag + length
+		i := 1
+		for f[i] >= 0x80 {
+			i++
+		}
+		return f[i+1:]
+	}
+	nx, fx := protoFields(inner(hx))
+	ny, fy := protoFields(inner(hy))
+	have := map[string]bool{}
+	for i := range nx {
+		have[string(fx[i])] = true
+	}
+	var delta []byte
+	for i := range ny {
+		if !have[string(fy[i])] {
+			delta = append(delta, fy[i]...)
+		}
+	}
+	out := append(bytes.Clone(hx), lenDelim(1, delta)...)
+	for _, r := range ry[1:] {
+		out = append(out, r...)
 	}
 	return out
 }
